@@ -34,8 +34,8 @@ def run(chk, repo, tier):
     chk.rule("C01.R6", "Verify/PopVerify reject an honestly produced (PK, message, signature) only on paths guarded by a failed "
                        "validation predicate (decode, identity, subgroup, on-curve) — no rejection depends on the message or on "
                        "anything else", 4)
-    chk.rule("C01.R7", "every message can be hashed: hash_to_G2 refuses nothing but over-long tags and is the RFC 9380 function "
-                       "(C10 / C15 obligations re-stated)", 60)
+    chk.rule("C01.R7", "every message can be hashed: hash_to_G2 refuses nothing but over-long tags and never reaches its failure arm "
+                       "(the totality obligations of C10 / C15 re-stated)", 5)
     chk.rule("C01.R5", "the exponent compared with one vanishes identically for honestly produced signatures (formal bilinear domain)", 4)
     chk.not_decided += ["bilinearity of the pairing (C05) — R5 is conditional on it",
                         "that multiply / compression / hash_to_G2 compute what their terms denote (C07, C11, C10)",
@@ -186,7 +186,10 @@ def run(chk, repo, tier):
     except AnalysisError as e:
         err = e
     for rule, construct, key, ok, detail, where in sub.obs:
-        chk.ob("C01.R7", construct, f"hash_to_G2 [{rule}] {key}", ok, detail, where)
+        # only totality matters here: Sign and Verify share hash_to_G2, so a deviation from the RFC that both sides see alike does
+        # not stop honest signatures from verifying (it is C09's / C10's business); a refusal or an escaping raise does
+        if any(t in key for t in ("no other refusal", "no path raises", "accepted DST lengths", "ell > 255 refused")):
+            chk.ob("C01.R7", construct, f"hash_to_G2 [{rule}] {key}", ok, detail, where)
     if err is not None and all(o[3] for o in sub.obs):
         raise err
     chk.note_analysed(suites=3, group_order_bits=r.bit_length())
